@@ -8,7 +8,7 @@ from comp.bits import gen
 RULE = ("seeded op scripts: bitset<N> for N in 1..130, 191..193, 255..257, 320 (4 registers; constructors, set/reset/flip/test, "
         "proxy reference ops, &= |= ^= ~ & | ^, <<= >>= << >> by 0..N+200, word/offset boundaries, 2^k and 2^64-1, "
         "count/any/all/none/==) each op followed by a bit-by-bit comparison of all registers with std::bitset<N> and a "
-        "padding inspection; array<uint64_t,N> vs std::array; mt19937 (seeds 0,1,5489,2^32-1,random; >= 2000 outputs and "
+        "padding inspection; array<T,N> for T in uint64_t, double, float (incl. +-0.0, NaNs, inf), const char*, an enum, a struct with padding and its own non-bitwise operator== vs std::array (front/back/[]/iteration/get/swap/==/!=/array_concat of 1..5 arrays of mixed lengths); mt19937 (seeds 0,1,5489,2^32-1,random; >= 2000 outputs and "
         "the full private state) vs std::mt19937; pcg_basic32 vs the pcg-c-basic reference; insertion_sort on all arrays of "
         "length <= 6 over 3 keys (tagged) and random ones under 5 comparators. non-trivial = distinct script that "
         "(bitset) shifts across a word boundary or by >= N, (mt) passes >= 1 regeneration, (pcg) makes a bounded draw, "
@@ -41,7 +41,7 @@ def nontrivial(cid, lines, ri):
     if k == "sortcase":
         return "|".join(lines) if any(len(l.split()) >= 4 for l in lines) else None
     if k == "array":
-        return "|".join(lines) if any(l.startswith(("back", "concat")) for l in lines) else None
+        return "|".join(lines) if any(l.startswith(("back", "concat", "eq")) for l in lines) else None
     return None
 
 GEN_OBLIGATIONS = ["BitsConsts_mt_ok", "BitsConsts_pcg_ok", "BitsConsts_bitset_ok"]
@@ -67,6 +67,8 @@ def build(c):
     src = os.path.join(vlib.ROOT, "comp/bits/harness.cpp")
     jobs = [("bits_h%d" % g, ["-DBITS_SIZES=" + " ".join("X(%d)" % n for n in gen.group_sizes(g)), "-fno-lifetime-dse"])
             for g in range(gen.NGROUPS)]
+    # the two array TUs are the slowest: start them first
+    jobs = [("bits_harrA", ["-DBITS_ARRAY_A", "-fno-lifetime-dse"]), ("bits_harrB", ["-DBITS_ARRAY_B", "-fno-lifetime-dse"])] + jobs
     jobs.append(("bits_hmisc", ["-DBITS_MISC", "-fno-lifetime-dse"]))
     with ThreadPoolExecutor(max_workers=5) as ex:
         res = list(ex.map(lambda j: vlib.cxx_build(j[0], src, extra=j[1]), jobs))
@@ -88,9 +90,10 @@ def make_cases(c):
                 cases.append(("sweep-%d-%d-%d" % (n, rep, j), ls))
         for j in range(3 if quick else 80):
             cases.append(("b%d-%d" % (n, j), gen.gen_bitset(rng, n, rng.choice([20, 60, 120]))))
-    for n in gen.ARRAY_SIZES:
-        for j in range(6 if quick else 60):
-            cases.append(("arr%d-%d" % (n, j), gen.gen_array(rng, n)))
+    for kind, sizes in gen.ARRAY_KINDS.items():
+        for n in sizes:
+            for j in range(6 if quick else 60):
+                cases.append(("arr-%s-%d-%d" % (kind, n, j), gen.gen_array(rng, kind, n)))
     seeds = [None, 0, 1, 5489, 2**32 - 1] + [rng.getrandbits(32) for _ in range(5 if quick else 60)]
     for j, s in enumerate(seeds):
         cases.append(("mt-%d" % j, gen.gen_mt(rng, s, 2000 if j < 6 else rng.choice([2000, 2500, 624, 625, 1248]))))
@@ -126,6 +129,10 @@ def run(c):
                     p = int(t[-1])
                     c.count("bits_shift_" + ("ge_64words" if p >= 64 * ((n + 63) // 64) else "ge_N" if p >= n else
                                              "zero" if p == 0 else "word_multiple" if p % 64 == 0 else "general"))
+        elif k == "array":
+            kind = ls[0].split()[1]
+            name = "bits_harr" + gen.ARRAY_GROUP.get(kind, "A")
+            c.count("bits_array_kind_" + kind)
         else:
             name = "bits_hmisc"
         route.setdefault(name, []).append((cid, ls))
